@@ -4,7 +4,7 @@
     Code under test (transcribed as it is):
     - [src/rules/append_text_comment.rs]: [AppendTextComment::text] (the [.map(|content| ...)]
       closure) and the shift amount [text.lines().count()] of [Rule::process];
-    - [src/generator/token_based.rs]: [is_single_line_comment] (with its index arithmetic).
+    - [src/generator/token_based.rs]: [is_single_line_comment].
     The tie to the code is the correspondence stream of property C18 (harness [dl-c18 text]).
 
     Specification (written from the Lua 5.1 manual section 2.1 / the Luau lexer, not from
@@ -71,41 +71,24 @@ Definition start_insertion (content : bytes) : bytes :=
   end.
 
 (** * The generator's classifier: [is_single_line_comment]
+    (as repaired by /repo commit fc507f0: a long comment is recognised only by a well-formed
+    opening bracket)
 
-    [content.starts_with("--[") &&
-       match content.chars().skip(3).enumerate().find(|(_, c)| *c == '[') {
-         Some((k, _)) => content.get(3..k).map(|s| s.chars().all(|c| c == '=')).unwrap_or(true),
-         None => false }]
-    [k] is an index among the characters after the first three, but it is used as a byte
-    index from the start of the string; [get] yields [None] when [k < 3] or [k] is not a
-    character boundary.  Transcribed with that arithmetic. *)
-Definition is_continuation (b : N) : bool := (128 <=? b) && (b <=? 191).
-
-(** number of characters (non-continuation bytes) before the first '[' *)
-Fixpoint chars_before_bracket (s : bytes) (k : nat) : option nat :=
+    [let is_multiline_comment = content.strip_prefix("--[")
+         .map(|rest| rest.trim_start_matches('=').starts_with('[')).unwrap_or(false);
+     !is_multiline_comment] *)
+Fixpoint skip_eqs (s : bytes) : bytes :=
   match s with
-  | [] => None
-  | c :: s' =>
-    if c =? 91 then Some k
-    else chars_before_bracket s' (if is_continuation c then k else S k)
-  end.
-
-Definition is_char_boundary (s : bytes) (k : nat) : bool :=
-  match skipn k s with
-  | [] => Nat.leb k (length s)
-  | b :: _ => negb (is_continuation b)
+  | 61 :: s' => skip_eqs s'
+  | _ => s
   end.
 
 Definition is_multiline_comment (content : bytes) : bool :=
   match content with
   | 45 :: 45 :: 91 :: rest =>
-    match chars_before_bracket rest 0 with
-    | Some k =>
-      if Nat.ltb k 3 then true
-      else if is_char_boundary content k
-           then forallb (N.eqb 61) (firstn (k - 3) (skipn 3 content))
-           else true
-    | None => false
+    match skip_eqs rest with
+    | 91 :: _ => true
+    | _ => false
     end
   | _ => false
   end.
